@@ -50,6 +50,7 @@ type Scenario struct {
 	PubFail   bool              `json:"pubfail"` // the connection refuses to publish resource events
 	Pollute   bool              `json:"pollute"` // a request with a mistyped payload is processed first
 	Name      int               `json:"name"`    // which resource name variant
+	Shared    bool              `json:"shared"`  // registered with AddHandler; the Call map is shared with a sibling handler that has a New handler
 	Wide      bool              `json:"wide"`    // the service owns ">" and is sent names of other services that merely start with its name
 }
 
@@ -215,6 +216,33 @@ func execute(sc Scenario, rng *rand.Rand) (rec, error) {
 	if nv.submux {
 		submux = res.NewMux("")
 		if pv := core.Catch(func() { submux.Handle(nv.pattern, opts...); s.Mount("mm", submux) }); pv != nil {
+			return nil, fmt.Errorf("registration panicked: %v", pv)
+		}
+	} else if sc.Shared {
+		// Handler values built by the caller: two of them share one Call map; only the sibling has a New handler
+		var h res.Handler
+		for _, o := range opts {
+			o.SetOption(&h)
+		}
+		if h.Call == nil {
+			h.Call = map[string]res.CallHandler{}
+		}
+		foreign := func(r res.NewRequest) {
+			rn.mu.Lock()
+			rn.inv = "foreign-new"
+			rn.mu.Unlock()
+			r.New("test.sibling.made")
+		}
+		sib := res.Handler{Call: h.Call, New: foreign, Get: func(r res.GetRequest) { r.NotFound() }}
+		if pv := core.Catch(func() {
+			if sc.Nl%2 == 0 {
+				s.AddHandler("sibling.$id", sib)
+				s.AddHandler(nv.pattern, h)
+			} else {
+				s.AddHandler(nv.pattern, h)
+				s.AddHandler("sibling.$id", sib)
+			}
+		}); pv != nil {
 			return nil, fmt.Errorf("registration panicked: %v", pv)
 		}
 	} else if pv := core.Catch(func() { s.Handle(nv.pattern, opts...) }); pv != nil {
@@ -1178,6 +1206,7 @@ func Run(c *core.Ctx) {
 			sc.Lpanic = 1 + rng.Intn(sc.Nl)
 		}
 		sc.Wide = rng.Intn(5) == 0
+		sc.Shared = rng.Intn(6) == 0
 		al := alphabet(&sc)
 		n := rng.Intn(5)
 		for j := 0; j < n; j++ {
